@@ -946,6 +946,18 @@ def fixed_programs() -> list[dict]:
           [{'name': 'M', 'kind': 'main', 'traced': True, 'writes': ['M|d\nM|e', 'f\n']}],
           [['M', 'M|d\nM|e'], ['M', 'f\n']], 'embedded'),
     ]
+    # a worker thread of the default executor REUSED by a second asyncio.to_thread() call: it runs under a context copied from
+    # the calling task, but it is its own trace (started at its first use); what it writes belongs to it (seed C13-7)
+    src = ("import asyncio, sys\nfrom concurrent.futures import ThreadPoolExecutor\n"
+           "def work(i):\n    sys.stdout.write('W|%d a\\n' % i)\n    sys.stdout.write('W|%d b\\n' % i)\n"
+           "async def main():\n    asyncio.get_running_loop().set_default_executor(ThreadPoolExecutor(max_workers=1))\n"
+           "    sys.stdout.write('A|before\\n')\n    await asyncio.to_thread(work, 0)\n    sys.stdout.write('A|between\\n')\n"
+           "    await asyncio.to_thread(work, 1)\n    sys.stdout.write('A|after\\n')\n"
+           "sys.stdout.write('M|start\\n')\nasyncio.run(main())\nsys.stdout.write('M|end\\n')\n")
+    seq = [['M', 'M|start\n'], ['A', 'A|before\n'], ['W', 'W|0 a\n'], ['W', 'W|0 b\n'], ['A', 'A|between\n'],
+           ['W', 'W|1 a\n'], ['W', 'W|1 b\n'], ['A', 'A|after\n'], ['M', 'M|end\n']]
+    progs.append(P(src, [{'name': n, 'kind': k, 'traced': True, 'writes': [x for m, x in seq if m == n]}
+                         for n, k in (('M', 'main'), ('A', 'task'), ('W', 'thread'))], seq, 'worker-reused'))
     return progs
 
 
